@@ -11,12 +11,14 @@ import numpy as np
 TRACE: list = []          # JSON-able records, one per probe call
 SNAPS: list = []          # deep (non JSON) snapshots taken by `last` / `observe`, same order as the calls
 PLAN: dict = {}           # optional fault plan {"name": model name, "step": i}
+CHANGES: list = []        # (model name, step, sorted changed bucket names, snapshot after the model) when track=True
 
 
 def reset():
     TRACE.clear()
     SNAPS.clear()
     PLAN.clear()
+    CHANGES.clear()
 
 
 class PlannedFailure(Exception):
@@ -57,10 +59,12 @@ def container_value(c):
 def tree_paths(tree):
     """sorted list of (path, sorted variable names) of all nodes that carry anything."""
     out = []
+    root = tree.path.rstrip("/")
     for node in tree.subtree:
         names = sorted(str(v) for v in node.to_dataset(inherit=False).variables)
-        if node.path != "/" or names:
-            out.append([node.path, names])
+        path = "/" + node.path[len(root):].lstrip("/")       # relative to the given tree
+        if path != "/" or names:
+            out.append([path, names])
     return sorted(out)
 
 
@@ -68,14 +72,19 @@ def tree_is_empty(tree) -> bool:
     return len(tree_paths(tree)) == 0
 
 
-def snap(det) -> dict:
-    """Deep snapshot of every bucket."""
+def snap(det, charge=True) -> dict:
+    """Deep snapshot of every bucket.  charge=False: the charge bucket is not read (reading `Charge.array`
+    refreshes its internal cache, which would hide a stale-cache defect from the caller)."""
     out = {}
     for name in ("photon", "pixel", "signal", "image"):
         out[name] = container_value(getattr(det, name))
     ch = det.charge
-    out["charge_clusters"] = 0 if ch.frame_empty() else int(len(ch.frame))
-    out["charge"] = np.array(ch.array, copy=True)
+    if charge:
+        out["charge_clusters"] = 0 if ch.frame_empty() else int(len(ch.frame))
+        out["charge"] = np.array(ch.array, copy=True)
+    else:
+        out["charge_clusters"] = None
+        out["charge"] = None
     out["scene"] = det.scene.data.copy(deep=True)
     try:
         out["data"] = det.data.copy(deep=True)
@@ -116,11 +125,11 @@ def same_value(a, b) -> bool:
     return bool(a.dtype == b.dtype and a.shape == b.shape and np.array_equal(a, b, equal_nan=True))
 
 
-def _record(det, kind, with_snap):
+def _record(det, kind, with_snap, charge=True):
     name = det.current_running_model_name
     rec = {"name": name, "kind": kind, "det": id(det), **clock(det)}
     if with_snap:
-        s = snap(det)
+        s = snap(det, charge=charge)
         rec["buckets"] = summary(s)
         SNAPS.append((name, int(det.pipeline_count), s))
     TRACE.append(rec)
@@ -136,9 +145,9 @@ def tick(detector):
     _record(detector, "tick", False)
 
 
-def observe(detector):
-    """records the clock and a deep snapshot of every bucket"""
-    _record(detector, "observe", True)
+def observe(detector, charge=True):
+    """records the clock and a deep snapshot of every bucket (charge=False: without reading the charge bucket)"""
+    _record(detector, "observe", True, charge=charge)
 
 
 # ------------------------------------------------------------------ deterministic payloads
@@ -190,7 +199,15 @@ def scene_source(step, salt=0):
 WAVELENGTHS = [500.0, 600.0, 700.0]
 
 
-def write(detector, spec, salt=0, spec_odd=None):
+BUCKETS = ("photon", "charge", "pixel", "signal", "image")
+
+
+def changed_buckets(pre: dict, post: dict):
+    """names of the buckets whose content differs between two snapshots (ground truth measured inside a model)"""
+    return sorted(b for b in BUCKETS if not same_value(pre[b], post[b]))
+
+
+def write(detector, spec, salt=0, spec_odd=None, track=False):
     """Writer probe.  spec: {bucket: options}; buckets missing from spec are not touched.
       photon: {"dtype": "float64", "wl": 0|2|3, "const": bool, "mul": k}
       charge: {"how": "array"|"clusters"}
@@ -203,6 +220,7 @@ def write(detector, spec, salt=0, spec_odd=None):
 
     shape = tuple(detector.geometry.shape)
     step = int(detector.pipeline_count)
+    pre = snap(detector) if track else None
     if spec_odd is not None and step % 2 == 1:
         spec = spec_odd               # a different write pattern in odd steps
     for b, opt in spec.items():
@@ -259,4 +277,7 @@ def write(detector, spec, salt=0, spec_odd=None):
                 detector.data["grp/k2"] = xr.DataArray(np.array([[1, 2], [3, 4 + step]], dtype="int64"), dims=["p", "q"])
         else:
             raise KeyError(b)
+    if track:
+        post = snap(detector)
+        CHANGES.append((detector.current_running_model_name, step, changed_buckets(pre, post), post))
     _record(detector, "write", False)
